@@ -128,18 +128,27 @@ Section Nodes.
     sig_rel s0 (Some x) -> node_ref L n a.
   Proof.
     intros Hn Hr Ha Hi Hs c w HI Hw o e' s E D. rewrite Hr in E. inversion E; subst.
-    exists (f (set_cerr None c)), w, (Some x). rewrite Hn, app_nil_r. splits; try done.
-    apply post_intro; [exact (Ha (set_cerr None c))|apply Hi; exact HI].
+    exists (f (set_cerr None c)), w, (Some x). rewrite Hn, app_nil_r. splits; try done;
+      [exact (Ha (set_cerr None c))|apply Hi; exact HI].
   Qed.
 
-  Theorem break_ref L (lz : bool) n : node_ref L (if lz then NLBreak n else NBreak n) (ABreak lz n false no_cond).
+  Lemma Inv_set_brkD L n c : 0 <= n -> Inv L c -> Inv L (set_brkD n c).
+  Proof. intros Hn (I1 & I2 & I3 & _). split; [exact I1|]. split; [exact I2|]. split; [exact I3|exact Hn]. Qed.
+
+  (* a break never lowers a depth that is still pending (from an earlier lazybreak) *)
+  Lemma Inv_break L n c : Inv L c -> Inv L (set_brkD (Z.max n (brkD c)) c).
+  Proof. intros HI. apply Inv_set_brkD; [|exact HI]. destruct HI as (_&_&_&N). lia. Qed.
+
+  Theorem break_ref L (lz : bool) n cnd : node_ref L (if lz then NLBreak n else NBreak n) (ABreak lz n false cnd).
   Proof.
     destruct lz.
-    - apply (signal_node_ref L _ _ (set_brkD n) (set_ebrk n) ELBreak SLazy); try reflexivity. intros c H; exact H.
-    - apply (signal_node_ref L _ _ (set_brkD n) (set_ebrk n) EBreak SBrk); try reflexivity. intros c H; exact H.
+    - apply (signal_node_ref L _ _ (fun c => set_brkD (Z.max n (brkD c)) c) (fun e => set_ebrk (Z.max n (e_brk e)) e) ELBreak SLazy);
+        try reflexivity. intros c; apply Inv_break.
+    - apply (signal_node_ref L _ _ (fun c => set_brkD (Z.max n (brkD c)) c) (fun e => set_ebrk (Z.max n (e_brk e)) e) EBreak SBrk);
+        try reflexivity. intros c; apply Inv_break.
   Qed.
 
-  Theorem continue_ref L : node_ref L NContinue (AContinue false no_cond).
+  Theorem continue_ref L cnd : node_ref L NContinue (AContinue false cnd).
   Proof.
     apply (signal_node_ref L _ _ (fun c => c) (fun e => e) ECont SCont); try reflexivity. intros c H; exact H.
   Qed.
@@ -161,8 +170,8 @@ Section Nodes.
     - destruct (ncond_ref flits lookup budget inc cnd c b (Inv_slots L c HI) RC) as (c1 & Q1 & C1 & W).
       rewrite W. pose proof (ceq_Inv L c1 c Q1 HI) as I1.
       destruct b; cbn [pick]; inversion E; subst.
-      + rewrite Hn. exists (f (set_cerr None c1)), w, (Some x). rewrite app_nil_r. splits; try done.
-        apply post_intro; [|apply Hi; exact I1].
+      + rewrite Hn. exists (f (set_cerr None c1)), w, (Some x). rewrite app_nil_r. splits; try done;
+          [|apply Hi; exact I1].
         rewrite Ha. f_equal. apply ceq_abs. eapply ceq_trans; [apply ceq_cerr|exact Q1].
       + exists c1, w, None. rewrite app_nil_r. splits; try done. apply ceq_abs, Q1.
     - inversion E; subst. rewrite (ncond_err flits lookup budget inc cnd c y RC) by reflexivity.
@@ -174,8 +183,10 @@ Section Nodes.
     node_ref L (NCond (c_cond cnd) [if lz then NLBreak n else NBreak n]) (ABreak lz n true cnd).
   Proof.
     destruct lz.
-    - apply (cond_signal_ref L cnd _ _ (set_brkD n) (set_ebrk n) ELBreak SLazy); try reflexivity. intros c H; exact H.
-    - apply (cond_signal_ref L cnd _ _ (set_brkD n) (set_ebrk n) EBreak SBrk); try reflexivity. intros c H; exact H.
+    - apply (cond_signal_ref L cnd _ _ (fun c => set_brkD (Z.max n (brkD c)) c) (fun e => set_ebrk (Z.max n (e_brk e)) e) ELBreak SLazy);
+        try reflexivity. intros c; apply Inv_break.
+    - apply (cond_signal_ref L cnd _ _ (fun c => set_brkD (Z.max n (brkD c)) c) (fun e => set_ebrk (Z.max n (e_brk e)) e) EBreak SBrk);
+        try reflexivity. intros c; apply Inv_break.
   Qed.
 
   Theorem continue_if_ref L cnd : node_ref L (NCond (c_cond cnd) [NContinue]) (AContinue true cnd).
@@ -282,38 +293,34 @@ Section Nodes.
 
   (* ---------------------------------------------------------------- assignments *)
 
-  (* the assigned value is not the live counter cell of an enclosing loop other than [var]'s own *)
-  Definition ctx_safe (L : list (nat * bytes)) (var src : bytes) (mods : list amod) : Prop :=
-    forall c n c2 v2, Inv L c ->
-      (let (c1, v) := ctx_get (set_cerr None c) src in run_mods n c1 (map c_mod mods) v) = ChOk c2 v2 ->
-      cerr c2 = None -> not_live L var v2.
-
-  Lemma ctx_safe_nil var src mods : ctx_safe [] var src mods.
-  Proof. intros c n c2 v2 _ _ _ p []. Qed.
-
   Lemma b_static_is : bytes_eqb b_static n_static = true.
   Proof. reflexivity. Qed.
 
+  (* a value without cells is stored as it is; a counter-loop cell is copied as a number *)
+  Lemma not_cell_match (v : value) (A : nat -> outcome) (X : outcome) :
+    cell_free v -> match v with VCell i => A i | _ => X end = X.
+  Proof.
+    intros CF. destruct v; try reflexivity. specialize (CF [1]). destruct idx as [|[|n]]; cbn in CF; discriminate.
+  Qed.
+
   Theorem ctx_ref L var src ok lit mods :
-    (lit = true -> src <> []) -> (lit = false -> ctx_safe L var src mods) ->
+    (lit = true -> src <> []) ->
     node_ref L (NCtx var src ok b_static lit (if lit then [] else map c_mod mods)) (ACtx var src ok lit mods).
   Proof.
-    intros Hlit Hsafe c w HI Hw o e' s E D. cbn [ref_eval] in E. cbn [write_node].
+    intros Hlit c w HI Hw o e' s E D. cbn [ref_eval] in E. cbn [write_node].
     destruct lit.
     { inversion E; subst. eexists _, w, None. split; [reflexivity|]. rewrite app_nil_r. splits; try done.
       - rewrite abs_ctx_set_bytes by (apply Hlit; reflexivity). reflexivity.
       - apply Inv_ctx_set_bytes. exact HI. }
-    specialize (Hsafe eq_refl c (w_n w)).
     destruct (env_get (abs c) src) as [v'|] eqn:G; [|inversion E; subst; contradiction].
     change (abs c) with (abs (set_cerr None c)) in G.
     destruct (ctx_get_ref (set_cerr None c) src v' G) as (v0 & EG & ->). cbn [bufLC set_cerr] in E.
     pose proof (ctx_get_val_ok (set_cerr None c) src (Inv_slots L c HI)) as VO. rewrite EG in VO. cbn [snd bufLC set_cerr] in VO.
-    rewrite EG in Hsafe |- *. cbn [cerr set_cerr].
+    rewrite EG. cbn [cerr set_cerr].
     pose proof (run_mods_ref mods (set_cerr None (set_cerr None c)) v0 (w_n w) (Inv_slots L c HI) eq_refl VO) as RM.
     change (abs (set_cerr None (set_cerr None c))) with (abs c) in RM. cbn [bufLC set_cerr] in RM.
     destruct (apply_mods (abs c) mods (deref (bufLC c) v0)) as [v1|x|]; [| |inversion E; subst; contradiction].
     - destruct RM as (c2 & v2 & E2 & Q2 & C2 & -> & V2). rewrite E2, C2.
-      specialize (Hsafe c2 v2 HI E2 C2).
       assert (Q : ceq c2 c) by (eapply ceq_trans; [exact Q2|apply ceq_cerr2]).
       pose proof (ceq_Inv L c2 c Q HI) as I2.
       assert (BL : bufLC c2 = bufLC c) by (destruct Q as (_&QL&_); exact QL).
@@ -328,21 +335,30 @@ Section Nodes.
       destruct (is_nil v2) eqn:N.
       + inversion E; subst. exists c3, w, None. rewrite app_nil_r. splits; done.
       + inversion E; subst.
-        assert (G2 : forall b, conv_bytes v2 = Some b -> v2 = VBytes b) by (intros b Hb; destruct v2; inversion Hb; reflexivity).
-        destruct (conv_bytes v2) as [[|b0 b]|] eqn:CB.
-        * eexists _, w, None. split; [reflexivity|]. rewrite app_nil_r. splits; try done.
-          -- rewrite b_static_is. cbn [orb]. rewrite abs_ctx_set, B3, A3. reflexivity.
-          -- apply Inv_ctx_set; [rewrite B3; exact V2|exact Hsafe|exact I3].
-        * eexists _, w, None. split; [reflexivity|]. rewrite app_nil_r. splits; try done.
-          -- rewrite abs_ctx_set_bytes by discriminate. rewrite A3, (G2 _ eq_refl). reflexivity.
-          -- apply Inv_ctx_set_bytes, I3.
-        * eexists _, w, None. split; [reflexivity|]. rewrite app_nil_r. splits; try done.
-          -- rewrite b_static_is. cbn [orb]. rewrite abs_ctx_set, B3, A3. reflexivity.
-          -- apply Inv_ctx_set; [rewrite B3; exact V2|exact Hsafe|exact I3].
+        destruct V2 as [CF|(i & -> & Hi)].
+        * (* no cell inside: stored as it is *)
+          assert (G2 : forall b, conv_bytes v2 = Some b -> v2 = VBytes b) by (intros b Hb; destruct v2; inversion Hb; reflexivity).
+          destruct (conv_bytes v2) as [[|b0 b]|] eqn:CB.
+          -- rewrite (not_cell_match v2 _ _ CF).
+             eexists _, w, None. split; [reflexivity|]. rewrite app_nil_r. splits; try done.
+             ++ rewrite b_static_is. cbn [orb]. rewrite abs_ctx_set, B3, A3. reflexivity.
+             ++ apply Inv_ctx_set; [left; exact CF|apply not_live_cell_free, CF|exact I3].
+          -- eexists _, w, None. split; [reflexivity|]. rewrite app_nil_r. splits; try done.
+             ++ rewrite abs_ctx_set_bytes by discriminate. rewrite A3, (G2 _ eq_refl). reflexivity.
+             ++ apply Inv_ctx_set_bytes, I3.
+          -- rewrite (not_cell_match v2 _ _ CF).
+             eexists _, w, None. split; [reflexivity|]. rewrite app_nil_r. splits; try done.
+             ++ rewrite b_static_is. cbn [orb]. rewrite abs_ctx_set, B3, A3. reflexivity.
+             ++ apply Inv_ctx_set; [left; exact CF|apply not_live_cell_free, CF|exact I3].
+        * (* the live counter of a loop: the variable gets a copy of the number *)
+          cbn [conv_bytes].
+          eexists _, w, None. split; [reflexivity|]. rewrite app_nil_r. splits; try done.
+          -- rewrite abs_ctx_set_counter, B3, A3. reflexivity.
+          -- apply Inv_ctx_set_counter, I3.
     - destruct RM as (c2 & v2 & E2 & Q2 & C2). rewrite E2, C2.
       assert (Q : ceq c2 c) by (eapply ceq_trans; [exact Q2|apply ceq_cerr2]).
       inversion E; subst. exists c2, w, (Some (err_of_merr x)). rewrite app_nil_r.
-      splits; done.
+      splits; try done. { apply ceq_abs, Q. } { apply (ceq_Inv L _ c Q HI). }
   Qed.
 
   Theorem counter_ref L var is_init cop arg :
@@ -369,7 +385,8 @@ Section Nodes.
   Definition lookup_ok : Prop := forall names, lookup names = option_map compile_tpl (rlookup names).
 
   Definition inc_ok (L : list (nat * bytes)) : Prop :=
-    forall t c, Inv L c -> forall o e' s, rinc t (abs c) = Some (o, e', s) ->
+    forall names t, rlookup names = Some t ->
+    forall c, Inv L c -> forall o e' s, rinc t (abs c) = Some (o, e', s) ->
       match s with
       | SNone | SExit => exists c', inc (compile_tpl t) c = Some (c', o, None) /\ abs c' = e' /\ Inv L c'
       | SErr x => is_ctl x = false ->
@@ -380,10 +397,10 @@ Section Nodes.
   Theorem include_ref L names : lookup_ok -> inc_ok L -> node_ref L (NInclude names) (AInclude names).
   Proof.
     intros Hl Hi c w HI Hw o e' s E D. cbn [ref_eval] in E. cbn [write_node]. rewrite Hl.
-    destruct (rlookup names) as [t|]; cbn [option_map].
+    destruct (rlookup names) as [t|] eqn:RL; cbn [option_map].
     2:{ inversion E; subst. exists (set_cerr None c), w, (Some ETplNotFound). rewrite app_nil_r. splits; done. }
     destruct (rinc t (abs c)) as [[[o1 e1] s1]|] eqn:R; [|inversion E; subst; contradiction].
-    specialize (Hi t (set_cerr None c) HI o1 e1 s1 R).
+    specialize (Hi names t RL (set_cerr None c) HI o1 e1 s1 R).
     destruct s1; try (inversion E; subst; contradiction).
     - destruct Hi as (c' & EI & A & I'). rewrite EI. inversion E; subst.
       pose proof (wr_write_healthy w o Hw) as (H1 & H2 & H3 & H4).
@@ -584,3 +601,113 @@ Section Nodes.
       + eapply Forall_impl; [|exact Hcs]. intros a Ha. destruct a; try exact I. destruct Ha as [H1 H2]. split; [exact I|exact H2].
   Qed.
 End Nodes.
+
+(* ------------------------------------------------------------------ a ctx node never stores a cell *)
+
+Lemma put_slot_in k f fresh c s' :
+  (forall s, s_key (f s) = s_key s) ->
+  In s' (vars (put_slot k f fresh c)) -> In s' (vars c) \/ s' = fresh \/ exists s, s' = f s.
+Proof.
+  intros Hk. unfold put_slot. destruct (upd_slot k f (vars c)) as [l'|] eqn:U; cbn [vars set_vars].
+  - destruct (upd_slot_spec k f _ _ U Hk) as [_ I']. intros H. destruct (I' s' H) as [H'|(s0 & _ & _ & ->)].
+    + left; exact H'.
+    + right; right; exists s0; reflexivity.
+  - intros H. apply in_app_iff in H. destruct H as [H|[<-|[]]]; [left; exact H|right; left; reflexivity].
+Qed.
+
+Lemma ctx_get_vars c path : vars (fst (ctx_get c path)) = vars c.
+Proof. destruct (ctx_get_shape c path) as (eo & v & E & _). rewrite E. reflexivity. Qed.
+
+Lemma ctx_get_bufLC c path : bufLC (fst (ctx_get c path)) = bufLC c.
+Proof. destruct (ctx_get_shape c path) as (eo & v & E & _). rewrite E. reflexivity. Qed.
+
+Lemma collect_args_vars : forall args c, vars (fst (collect_args c args)) = vars c.
+Proof.
+  induction args as [|a r IH]; intros c; [reflexivity|]. cbn [collect_args].
+  destruct (a_static a).
+  - specialize (IH c). destruct (collect_args c r) as [c2 vs]. exact IH.
+  - pose proof (ctx_get_vars c (a_val a)) as G. destruct (ctx_get c (a_val a)) as [c1 v]. cbn [fst] in G.
+    specialize (IH c1). destruct (collect_args c1 r) as [c2 vs]. cbn [fst] in *. congruence.
+Qed.
+
+Lemma run_mods_vars : forall mods n c v c2 v2, run_mods n c mods v = ChOk c2 v2 -> vars c2 = vars c.
+Proof.
+  induction mods as [|m r IH]; intros n c v c2 v2 E.
+  - inversion E; reflexivity.
+  - cbn [run_mods] in E. pose proof (collect_args_vars (m_args m) c) as CV.
+    destruct (collect_args c (m_args m)) as [c1 args]. cbn [fst] in CV.
+    destruct (existsb a_global (m_args m)); [discriminate|].
+    unfold apply_mod in E. destruct (pure_mod (bufLC c1) (m_id m) v args) as [v1|x|].
+    + rewrite (IH _ _ _ _ _ E). exact CV.
+    + inversion E; subst. exact CV.
+    + destruct (name_is (m_id m) n_vdefer).
+      { destruct args as [|a0 args0]; [inversion E; subst; exact CV|]. rewrite (IH _ _ _ _ _ E). exact CV. }
+      destruct (name_is (m_id m) n_vacquire).
+      { destruct args as [|a0 args0]; [inversion E; subst; exact CV|]. rewrite (IH _ _ _ _ _ E). exact CV. }
+      destruct (name_is (m_id m) n_vfail); [inversion E; subst; exact CV|discriminate].
+Qed.
+
+(* whatever a ctx node assigns, every slot that holds a counter cell afterwards held it before:
+   the node never stores a cell (a loop counter is copied as a number) *)
+Theorem ctx_node_no_new_cell flits lookup budget inc var src ok ins st mods c w c' w' e :
+  write_node flits lookup budget inc (NCtx var src ok ins st mods) c w = Out c' w' e ->
+  forall s' j, In s' (vars c') -> s_val s' = VCell j -> In s' (vars c).
+Proof.
+  cbn [write_node]. intros E s' j Hin Hc.
+  assert (SET : forall k v stt c0, In s' (vars (ctx_set k v stt c0)) -> (forall i, v <> VCell i) -> In s' (vars c0)).
+  { intros k v stt c0 H NV. unfold ctx_set in H. apply put_slot_in in H; [|reflexivity].
+    destruct H as [H|[->|(s0 & ->)]]; [exact H| |]; cbn [s_val] in Hc; exfalso; exact (NV j Hc). }
+  assert (SETB : forall k b c0, In s' (vars (ctx_set_bytes k b c0)) -> In s' (vars c0)).
+  { intros k b c0 H. unfold ctx_set_bytes in H. apply put_slot_in in H; [|reflexivity].
+    destruct H as [H|[->|(s0 & ->)]]; [exact H| |]; cbn [s_val] in Hc; discriminate Hc. }
+  assert (SETC : forall k n c0, In s' (vars (ctx_set_counter k n c0)) -> In s' (vars c0)).
+  { intros k n c0 H. unfold ctx_set_counter in H. apply put_slot_in in H; [|reflexivity].
+    destruct H as [H|[->|(s0 & ->)]]; [exact H| |]; cbn [s_val] in Hc; discriminate Hc. }
+  destruct st.
+  { inversion E; subst. apply SETB in Hin. exact Hin. }
+  pose proof (ctx_get_vars (set_cerr None c) src) as GV.
+  destruct (ctx_get (set_cerr None c) src) as [c1 v]. cbn [fst] in GV. change (vars (set_cerr None c)) with (vars c) in GV.
+  destruct (cerr c1); [inversion E; subst; rewrite GV in Hin; exact Hin|].
+  destruct (run_mods (w_n w) c1 mods v) as [c2 v2|] eqn:RM; [|discriminate].
+  pose proof (run_mods_vars _ _ _ _ _ _ RM) as MV. rewrite GV in MV.
+  destruct (cerr c2); [inversion E; subst; rewrite MV in Hin; exact Hin|].
+  set (c3 := match ok with [] => c2 | _ :: _ => ctx_set_static ok (VBool (negb (is_nil v2))) c2 end) in *.
+  assert (IN3 : In s' (vars c3) -> In s' (vars c)).
+  { unfold c3. destruct ok; [rewrite MV; exact (fun H => H)|]. intros H. unfold ctx_set_static in H.
+    apply SET in H; [rewrite MV in H; exact H|discriminate]. }
+  destruct (is_nil v2); [inversion E; subst; apply IN3, Hin|].
+  destruct (conv_bytes v2) as [[|b0 b]|].
+  - destruct v2; inversion E; subst;
+      try (apply IN3; eapply SET; [exact Hin|discriminate]); apply IN3, (SETC _ _ _ Hin).
+  - inversion E; subst. apply IN3, (SETB _ _ _ Hin).
+  - destruct v2; inversion E; subst;
+      try (apply IN3; eapply SET; [exact Hin|discriminate]); apply IN3, (SETC _ _ _ Hin).
+Qed.
+
+(* {% ctx x = i %} with i the live counter of a loop: x becomes a counter holding the number *)
+Theorem ctx_copies_loop_cell flits lookup budget inc var src ins c w i :
+  ctx_get (set_cerr None c) src = (set_cerr None c, VCell i) ->
+  exists c' s,
+    write_node flits lookup budget inc (NCtx var src [] ins false []) c w = Out c' w None /\
+    find_var var (vars c') = Some s /\
+    s_val s = VNil /\ s_buf s = [] /\ s_cntrF s = true /\ s_cntr s = nth i (bufLC c) 0 /\
+    var_value s [] = VInt (nth i (bufLC c) 0) /\
+    forall s' j, In s' (vars c') -> s_val s' = VCell j -> In s' (vars c).
+Proof.
+  intros G.
+  assert (W : write_node flits lookup budget inc (NCtx var src [] ins false []) c w =
+              Out (ctx_set_counter var (nth i (bufLC c) 0) (set_cerr None c)) w None).
+  { cbn [write_node]. rewrite G. reflexivity. }
+  unfold ctx_set_counter in W.
+  destruct (find_var_put var (fun s => mkSlot (s_key s) VNil [] true (nth i (bufLC c) 0) true)
+                         (mkSlot var VNil [] true (nth i (bufLC c) 0) true) (set_cerr None c))
+    as (s & F & Hs); [reflexivity|reflexivity|].
+  eexists _, s. split; [exact W|]. split; [exact F|].
+  assert (SH : s_val s = VNil /\ s_buf s = [] /\ s_cntrF s = true /\ s_cntr s = nth i (bufLC c) 0 /\
+               var_value s [] = VInt (nth i (bufLC c) 0)).
+  { destruct Hs as [->|(s0 & _ & ->)]; repeat split. }
+  destruct SH as (S1 & S2 & S3 & S4 & S5). repeat (split; [assumption|]).
+  intros s' j Hin Hc.
+  eapply (ctx_node_no_new_cell flits lookup budget inc var src [] ins false [] c w _ w None); [|exact Hin|exact Hc].
+  exact W.
+Qed.
